@@ -606,7 +606,148 @@ def r95(ctx):
                 ctx.ok(rid, stop[side], f"stop rule and get_{which}_point agree on equality with the {side} interface")
 
 
+# ---------------------------------------------------------------- R-9.6
+def _linform(e, fl, at, Lsym, depth=0):
+    """expr -> {symbol: coef, 1: const}; symbols are source texts; None if non-linear."""
+    if depth > 10:
+        return None
+    if isinstance(e, ast.Constant) and isinstance(e.value, int) and not isinstance(e.value, bool):
+        return {1: e.value}
+    if isinstance(e, ast.BinOp) and isinstance(e.op, (ast.Add, ast.Sub)):
+        a, b = _linform(e.left, fl, at, Lsym, depth + 1), _linform(e.right, fl, at, Lsym, depth + 1)
+        if a is None or b is None:
+            return None
+        out = dict(a)
+        sg = 1 if isinstance(e.op, ast.Add) else -1
+        for k, v in b.items():
+            out[k] = out.get(k, 0) + sg * v
+        return out
+    if isinstance(e, ast.UnaryOp) and isinstance(e.op, ast.USub):
+        a = _linform(e.operand, fl, at, Lsym, depth + 1)
+        return None if a is None else {k: -v for k, v in a.items()}
+    txt = ast.unparse(e)
+    if txt in Lsym:
+        return {"L": 1}
+    if isinstance(e, ast.Call) and dotted(e.func) == "len" and e.args and ast.unparse(e.args[0]) + "@len" in Lsym:
+        return {"L": 1}
+    if isinstance(e, ast.Name):
+        srcs = fl.sources(e, at)
+        exprs = [n for k, n, _, _ in srcs if k == "expr"]
+        if len(srcs) == 1 and len(exprs) == 1:
+            return _linform(exprs[0], fl, srcs[0][2], Lsym, depth + 1)
+    if isinstance(e, (ast.Name, ast.Attribute, ast.Subscript)):
+        return {txt.replace('"', "'"): 1}
+    return None
+
+
+def r96(ctx):
+    """A wire-fencing extension that stops at its own length limit must be rejected."""
+    rid = "R-9.6"
+    tree = ctx.tree
+    f = tree.func(TIS, "extender")
+    fl = flow_of(f)
+    cfg = fl.cfg
+    n = 0
+    for st in [s for s in walk_local(f) if isinstance(s, (ast.Expr, ast.Assign))]:
+        call = st.value
+        if not (isinstance(call, ast.Call) and isinstance(call.func, ast.Attribute) and call.func.attr == "propagate" and call.args):
+            continue
+        # success flag kept?
+        if isinstance(st, ast.Assign) and isinstance(st.targets[0], ast.Tuple) and isinstance(st.targets[0].elts[0], ast.Name) and st.targets[0].elts[0].id != "_":
+            flagname = st.targets[0].elts[0].id
+            used = [x for x in walk_local(f) if isinstance(x, ast.Name) and x.id == flagname and isinstance(x.ctx, ast.Load)]
+            if used:
+                ctx.ok(rid, st, "the success flag of the extension is kept and used")
+                n += 1
+                continue
+        X = call.args[0]
+        if not isinstance(X, ast.Name):
+            continue
+        n += 1
+        at = cfg.node_of(st)
+        # maxlen of the segment
+        Ef = None
+        for kind, node, sat, extra in fl.sources(X, at):
+            if kind == "expr" and isinstance(node, ast.Call) and last_name(node) == "empty_path":
+                Ef = (kwarg(node, "maxlen", 0), sat)
+        if Ef is None or Ef[0] is None:
+            raise AnalysisError("R-9.6: cannot find the maxlen of the extension segment in extender")
+        # concatenation into the trial path
+        concat = None
+        for s2 in walk_local(f):
+            if isinstance(s2, ast.Assign) and isinstance(s2.targets[0], ast.Attribute) and s2.targets[0].attr == "phasepoints" and isinstance(s2.value, ast.BinOp) and isinstance(s2.value.op, ast.Add):
+                l, r = s2.value.left, s2.value.right
+                if ast.unparse(r) == f"{X.id}.phasepoints" and cfg.reaches(at, cfg.node_of(s2)):
+                    T = ast.unparse(s2.targets[0].value)
+                    delta = None
+                    if ast.unparse(l) == f"{T}.phasepoints[:-1]":
+                        delta = -1
+                    elif ast.unparse(l) == f"{T}.phasepoints":
+                        delta = 0
+                    if delta is not None:
+                        concat = (s2, T, delta)
+            if isinstance(s2, ast.AugAssign) and ast.unparse(s2.value) == X.id and cfg.nodes_of(s2) and cfg.reaches(at, cfg.node_of(s2)):
+                concat = (s2, ast.unparse(s2.target), 0)
+        if concat is None:
+            raise AnalysisError("R-9.6: cannot find where the extension segment is joined to the trial path")
+        cst, T, delta = concat
+        cn = cfg.node_of(cst)
+        # the rejecting length test after the concatenation
+        test = None
+        for t in [x for x in cfg.nodes if x.kind == "test" and isinstance(x.ast, ast.Compare) and len(x.ast.ops) == 1]:
+            c = t.ast
+            if ast.unparse(c.left) in (f"{T}.length", f"len({T}.phasepoints)") and cfg.reaches(cn, t):
+                # true edge must reject
+                tb = [b for b in cfg.nodes if b.kind == "branch" and b.ast is c and any(tr for _, tr in b.facts)]
+                rej = False
+                for b in tb:
+                    for r in [x for x in walk_local(f) if isinstance(x, ast.Return)]:
+                        if cfg.dominates(b, cfg.node_of(r)) and isinstance(r.value, ast.Tuple) and isinstance(r.value.elts[0], ast.Constant) and r.value.elts[0].value is False:
+                            rej = True
+                if rej:
+                    test = c
+        if test is None:
+            ctx.bad(rid, st, "the success flag of the extension is discarded and no length test rejects a path whose extension ran out of frames: "
+                    "a path that ends inside the interfaces can be accepted", construct=short(call, 70))
+            continue
+        Lsym = {f"{T}.length", f"{T}.phasepoints@len"}
+        ef = _linform(Ef[0], fl, Ef[1], Lsym)
+        ec = _linform(test.comparators[0], fl, cfg.node_of(test), Lsym)
+        if ef is None or ec is None:
+            raise AnalysisError(f"R-9.6: length expressions outside the linear fragment: {short(Ef[0], 40)} / {short(test.comparators[0], 40)}")
+        D = {"L": 1, 1: delta}
+        for k, v in ef.items():
+            D[k] = D.get(k, 0) + v
+        for k, v in ec.items():
+            D[k] = D.get(k, 0) - v
+        other = {k: v for k, v in D.items() if k not in ("L", 1) and v != 0}
+        if other:
+            raise AnalysisError(f"R-9.6: cannot compare the extension budget with the limit symbolically (left over: {other})")
+        a, b = D.get("L", 0), D.get(1, 0)
+        LMIN = 2  # a path segment has at least two frames
+        op = test.ops[0]
+        if isinstance(op, ast.GtE):
+            holds = a >= 0 and a * LMIN + b >= 0
+        elif isinstance(op, ast.Gt):
+            holds = a >= 0 and a * LMIN + b > 0
+        elif isinstance(op, ast.Eq):
+            holds = a == 0 and b == 0
+        else:
+            holds = False
+        desc = f"len after a truncated extension - limit = {a}*L{b:+d} (L >= {LMIN}), test `{short(test, 50)}`"
+        if holds:
+            ctx.ok(rid, st, "an extension that stops at its own length limit always triggers the rejecting length test: " + desc)
+        else:
+            ctx.bad(rid, st,
+                    "the success flag of the extension is discarded, and when the extension stops at its own length limit (without reaching an interface) "
+                    "the rejecting length test is not guaranteed to fire: " + desc + " - a path ending inside the interfaces is accepted",
+                    construct=f"extension maxlen={short(Ef[0], 50)}; reject if {short(test, 50)}")
+    if n == 0:
+        raise AnalysisError("R-9.6: no extension propagate call found in extender")
+
+
 def run(ctx):
+    ctx.rule("R-9.6", "a wire-fencing extension whose success flag is discarded is covered by a length test that rejects every truncated extension (linear arithmetic on lengths)", floor=1)
     ctx.rule("R-9.1", "every return of a move function pairs flag True with status 'ACC' and flag False with a non-'ACC' status", floor=30)
     ctx.rule("R-9.2", "the job's path is replaced only under status == 'ACC'; treat_output numbers only new paths", floor=4)
     ctx.rule("R-9.3", "frames reach engine sinks only as fresh copies; input paths are never extended in place", floor=13)
@@ -618,6 +759,7 @@ def run(ctx):
     ctx.attempt(r93, ctx, moves)
     ctx.attempt(r94, ctx)
     ctx.attempt(r95, ctx)
+    ctx.attempt(r96, ctx)
 
 
 VARIANTS = [
@@ -640,6 +782,11 @@ VARIANTS = [
     B("c09-index-can-be-last", PATH, "idx = rgen.integers(1, self.length - 1)", "idx = rgen.integers(1, self.length)", "R-9.4"),
     B("c09-index-endpoint-closed", PATH, "idx = rgen.integers(1, self.length - 1)", "idx = rgen.integers(1, self.length - 1, endpoint=True)", "R-9.4"),
     B("c09-wrong-frame-returned", PATH, "        return self.phasepoints[idx], idx", "        return self.phasepoints[idx - 1], idx", "R-9.4"),
+    B("c09-extension-budget-exact", TIS, '        forth_segment = source_seg.empty_path(\n            maxlen=ens_set["tis_set"]["maxlength"]\n        )', '        forth_segment = source_seg.empty_path(\n            maxlen=ens_set["tis_set"]["maxlength"] - trial_path.length + 1\n        )', "R-9.6", control=True, why="seeded C09_a",
+      also=[(TIS, '    if trial_path.length >= ens_set["tis_set"]["maxlength"]:\n        trial_path.status = "FTX"  # exceeds "memory".\n        return False, trial_path, trial_path.status\n    trial_path.status = "ACC"\n    return True, trial_path, trial_path.status', '    if trial_path.length > ens_set["tis_set"]["maxlength"]:\n        trial_path.status = "FTX"  # exceeds "memory".\n        return False, trial_path, trial_path.status\n    trial_path.status = "ACC"\n    return True, trial_path, trial_path.status')]),
+    B("c09-extension-length-test-dropped", TIS, '    if trial_path.length >= ens_set["tis_set"]["maxlength"]:\n        trial_path.status = "FTX"  # exceeds "memory".\n        return False, trial_path, trial_path.status\n    trial_path.status = "ACC"\n    return True, trial_path, trial_path.status', '    trial_path.status = "ACC"\n    return True, trial_path, trial_path.status', "R-9.6"),
+    K("c09-keep-extension-budget-tight-ge", TIS, '        forth_segment = source_seg.empty_path(\n            maxlen=ens_set["tis_set"]["maxlength"]\n        )', '        forth_segment = source_seg.empty_path(\n            maxlen=ens_set["tis_set"]["maxlength"] - trial_path.length + 1\n        )'),
+    K("c09-keep-extension-limit-local", TIS, '    if trial_path.length >= ens_set["tis_set"]["maxlength"]:\n        trial_path.status = "FTX"  # exceeds "memory".\n        return False, trial_path, trial_path.status\n    trial_path.status = "ACC"\n    return True, trial_path, trial_path.status', '    limit = ens_set["tis_set"]["maxlength"]\n    if trial_path.length >= limit:\n        trial_path.status = "FTX"  # exceeds "memory".\n        return False, trial_path, trial_path.status\n    trial_path.status = "ACC"\n    return True, trial_path, trial_path.status'),
     K("c09-keep-index-keywords", PATH, "idx = rgen.integers(1, self.length - 1)", "idx = rgen.integers(low=1, high=self.length - 1)"),
     K("c09-keep-index-closed-form", PATH, "idx = rgen.integers(1, self.length - 1)", "idx = rgen.integers(1, self.length - 2, endpoint=True)"),
     K("c09-keep-status-local", TIS, '        trial_path.status = "NCR"\n        return False, trial_path, trial_path.status', '        trial_path.status = "NCR"\n        return False, trial_path, "NCR"'),
